@@ -12,7 +12,7 @@ from common import Ctx, MachineryError, pmap, write_json
 IMPL = dict(HeaderOffOk=True, HalfPointOk=True)
 INTENDED = dict(HeaderOffOk=True, HalfPointOk=True)
 B = {False, True}
-STRATS = {"plain", "pageby", "pageby_np_col", "pageby_np_first", "subline", "subpb", "groupby"}
+STRATS = {"plain", "pageby", "pageby_np_col", "pageby_np_first", "subline", "subpb", "groupby", "gbpb", "gbsub"}
 FULL = dict(Paths={"single", "multi", "figure"}, Strats=STRATS, HdrModes={"default", "explicit", "multi", "multi2", "none", "off"}, NSet={0, 1, 2, 5, 12},
             MSet={1, 2, 4}, BoolSet=B, PlaceSet={"first", "last", "all"}, FootSet={"none", "table", "para"}, HFSet=B, PaperSet={"letter", "landscape", "a4", "custom"}, NrowSet={2, 3, 5, 40},
             ShapeSet={"scalar", "col", "matrix", "recycle"}, SizeSet={"int", "half"}, KindSet={"str", "blanks", "int", "float", "null", "field", "long", "astral"}, ContigSet=B,
